@@ -69,7 +69,7 @@ def gen_tree(rng):
     # a FILE whose name contains "testData" (LatestData.java) next to the sources: skipped itself by the path rule,
     # its later siblings must still be analysed; and sources under a dot-directory, which are ordinary sources
     if rng.random() < 0.25:
-        pk = rng.choice([q for q, (ig, u, _) in files.items() if u is not None]).rsplit("/", 1)
+        pk = rng.choice([q for q, (ig, u, _) in files.items() if u is not None and u != "EMPTY"]).rsplit("/", 1)
         u = J.rand_unit(rng, 0, [(rng.choice(J.PKG_POOL), "LatestData")])
         u.path = (pk[0] + "/" if len(pk) == 2 else "") + "LatestData.java"
         if u.path not in files: files[u.path] = (False, u, u.text)
@@ -77,9 +77,16 @@ def gen_tree(rng):
         u = J.rand_unit(rng, 0, [(rng.choice(J.PKG_POOL), "Hidden%d" % extra)])
         u.path = rng.choice([".config", ".mvn/wrapper", "src/.internal"]) + "/Hidden%d.java" % extra
         files[u.path] = (False, u, u.text)
+    # zero-byte files before their siblings: an empty .java file (a valid compilation unit that declares nothing)
+    # and a .gitkeep; neither contributes anything nor hides what follows
+    if rng.random() < 0.25:
+        pk = rng.choice([q for q, (ig, u, _) in files.items() if u is not None]).rsplit("/", 1)
+        d0 = pk[0] + "/" if len(pk) == 2 else ""
+        if d0 + "A0Blank.java" not in files: files[d0 + "A0Blank.java"] = (False, "EMPTY", "")
+        files[d0 + ".gitkeep"] = (False, None, "")
     gitignore = "generated/\n" if any(ig for ig, _, _ in files.values()) or rng.random() < 0.3 else ""
     # a pattern that matches a FILE (not a directory): its siblings listed after it must still be analysed
-    cands = [p for p, (ig, u, _) in files.items() if u is not None and not ig]
+    cands = [p for p, (ig, u, _) in files.items() if u is not None and u != "EMPTY" and not ig]
     if len(cands) >= 2 and rng.random() < 0.3:
         p = rng.choice(sorted(cands)[:-1])
         base = p.rsplit("/", 1)[-1]
@@ -92,7 +99,9 @@ def gen_tree(rng):
     facts, texts = [], []
     for p in order:
         ig, u, text = files[p]
-        if u is not None:
+        if u == "EMPTY":
+            facts.append([p, "1" if ig else "0", "0", ["", "", "0", [], "class", "", [], [], [], []]])
+        elif u is not None:
             u.path = p
             facts.append([p, "1" if ig else "0", "1", J.unit_fact(u)])
         else:
